@@ -33,6 +33,7 @@ type c05Case struct {
 	Memstore   uint64 `json:"memstore"`
 	Background bool   `json:"background"` // background compaction thread with a 1ms ticker
 	Procs      int    `json:"procs"`
+	ReadHeavy  bool   `json:"read_heavy,omitempty"` // client 0 writes, all others only read the same hot keys
 	// observations
 	History   []lOp  `json:"history,omitempty"`
 	NOps      int    `json:"n_ops"`
@@ -138,14 +139,35 @@ func (c *c05Case) Exec() {
 			}
 		}
 	}()
+	writerDone := make(chan struct{})
 	for cl := 0; cl < c.Clients; cl++ {
 		wg.Add(1)
 		go func(cl int) {
 			defer wg.Done()
+			if cl == 0 {
+				defer close(writerDone)
+			}
 			r := rand.New(rand.NewSource(c.Seed*1000 + int64(cl)))
-			for i := 0; i < c.OpsPer; i++ {
+			n := c.OpsPer
+			if c.ReadHeavy && cl > 0 {
+				n = 8 * c.OpsPer
+			}
+			for i := 0; i < n; i++ {
 				op := lOp{Client: cl, Key: fmt.Sprintf("k%d", r.Intn(c.Keys))}
-				switch x := r.Intn(10); {
+				x := r.Intn(10)
+				if c.ReadHeavy {
+					if cl > 0 {
+						x = 0 // readers
+						select {
+						case <-writerDone:
+							return
+						default:
+						}
+					} else if x < 5 {
+						x = 5 + x%5 // the writer
+					}
+				}
+				switch {
 				case x < 5:
 					op.Kind = 0
 					op.Call = int64(time.Since(t0))
@@ -224,7 +246,7 @@ func (c *c05Case) Sx() string       { return "" }
 func (c *c05Case) Evals() int       { return c.NOps }
 func (c *c05Case) Nontrivial() bool { return c.Rotations >= 2 && c.NOps >= 100 }
 func (c *c05Case) Kind() string {
-	return fmt.Sprintf("clients=%d/bg=%v/procs=%d", c.Clients, c.Background, c.Procs)
+	return fmt.Sprintf("clients=%d/bg=%v/readheavy=%v", c.Clients, c.Background, c.ReadHeavy)
 }
 
 func genC05(r *rand.Rand, tier string) []Case {
@@ -234,8 +256,14 @@ func genC05(r *rand.Rand, tier string) []Case {
 	}
 	var cases []Case
 	for i := 0; i < n; i++ {
-		cases = append(cases, &c05Case{Seed: r.Int63n(1 << 40), Clients: 4 + r.Intn(5), OpsPer: 250 + r.Intn(250), Keys: 3 + r.Intn(6),
-			Memstore: []uint64{1, 50, 300, 1 << 30}[r.Intn(4)], Background: i%3 == 0})
+		c := &c05Case{Seed: r.Int63n(1 << 40), Clients: 4 + r.Intn(5), OpsPer: 250 + r.Intn(250), Keys: 3 + r.Intn(6),
+			Memstore: []uint64{1, 50, 300, 1 << 30}[r.Intn(4)], Background: i%3 == 0}
+		if i%4 == 1 {
+			// one writer whose every Put rotates the memstore, readers spinning on the keys it has just written:
+			// a Get overlaps the completion of a flush all the time
+			c.ReadHeavy, c.Memstore, c.Keys, c.OpsPer = true, 1, 2+r.Intn(3), 150+r.Intn(100)
+		}
+		cases = append(cases, c)
 	}
 	return cases
 }
@@ -243,8 +271,8 @@ func genC05(r *rand.Rand, tier string) []Case {
 func init() {
 	register(&Prop{
 		ID: "C05", Num: 5,
-		Gen: genC05,
-		New: func() Case { return &c05Case{} },
+		Gen:  genC05,
+		New:  func() Case { return &c05Case{} },
 		Rule: "30 (thorough 400) concurrent runs: 4-8 client goroutines x 250-500 Get/Put/Delete calls over 3-8 keys, memstore limits {1,50,300,1Gi} (self-rotating), a driver goroutine forcing rotations and synchronous compaction cycles through the verif hooks at random moments, every third run with the background compactor on a 1 ms ticker; the recorded invocation/response history is checked for linearizability against the map model with porcupine (the repository's pinned fork). Non-trivial: >=2 rotations and >=100 operations.",
 	})
 }
